@@ -1,11 +1,390 @@
-// Package c10: correspondence ops for C10 (stub, not yet built).
+// Package c10: drain / eviction queue — real terminator.Terminator.Drain, terminator.Queue (Add, Reconcile),
+// the termination controller and the pod predicates of pkg/utils/pod vs the Lean model and specification.
 package c10
 
 import (
+	"encoding/json"
+	"fmt"
+	"math/rand/v2"
+	"time"
+
+	clocktesting "k8s.io/utils/clock/testing"
+
+	podutil "sigs.k8s.io/karpenter/pkg/utils/pod"
+
 	"verifharness/internal/core"
 	"verifharness/internal/registry"
 )
 
 func init() { registry.Register("C10", Ops) }
 
-func Ops() []*core.Op { return nil }
+// ---------- leaf predicates ----------
+
+type PredIn struct {
+	Pod PodIn  `json:"pod"`
+	Now int64  `json:"now"` // ns offset
+	D   *int64 `json:"d"`   // node deadline ns offset, null = none
+}
+
+type PredOut struct {
+	Terminal    bool `json:"terminal"`
+	Terminating bool `json:"terminating"`
+	Active      bool `json:"active"`
+	Stuck       bool `json:"stuck"`
+	Tolerates   bool `json:"tolerates"`
+	Static      bool `json:"static"`
+	Daemon      bool `json:"daemon"`
+	DndActive   bool `json:"dndActive"`
+	Disruptable bool `json:"disruptable"`
+	Drainable   bool `json:"drainable"`
+	Waiting     bool `json:"waiting"`
+	Evictable   bool `json:"evictable"`
+	ForcedElig  bool `json:"forcedEligible"`
+}
+
+func implPreds(raw json.RawMessage) (any, error) {
+	var in PredIn
+	if err := json.Unmarshal(raw, &in); err != nil {
+		return nil, err
+	}
+	w := &world{pods: []*podState{{in: in.Pod}}}
+	p := w.podObj(0)
+	clk := clocktesting.NewFakeClock(base.Add(time.Duration(in.Now)))
+	return PredOut{
+		Terminal:    podutil.IsTerminal(p),
+		Terminating: podutil.IsTerminating(p),
+		Active:      podutil.IsActive(p),
+		Stuck:       podutil.IsStuckTerminating(p, clk),
+		Tolerates:   podutil.ToleratesDisruptedNoScheduleTaint(p),
+		Static:      podutil.IsOwnedByNode(p),
+		Daemon:      podutil.IsOwnedByDaemonSet(p),
+		DndActive:   podutil.IsDoNotDisruptActive(p, clk, nil),
+		Disruptable: podutil.IsDisruptable(p, clk, nil),
+		Drainable:   podutil.IsDrainable(p, clk),
+		Waiting:     podutil.IsWaitingEviction(p, clk),
+		Evictable:   podutil.IsEvictable(p, clk, nil),
+		ForcedElig:  podutil.IsPodEligibleForForcedEviction(p, deadline(in.D)),
+	}, nil
+}
+
+func genPreds(r *rand.Rand, t core.Tier) any {
+	now := int64(r.IntN(1000))*sec + pick(r, []int64{0, 0, 1, sec / 2, sec - 1})
+	d0 := genD0(r, now)
+	p := genPod(r, genCtx{now: now, d0: d0})
+	in := PredIn{Pod: p, Now: now}
+	if r.IntN(100) < 60 {
+		in.Now += tickTo(r, now, d0, []PodIn{p})
+	}
+	// do-not-disrupt duration edge: clock exactly at / around start + duration
+	if p.Dnd != nil && p.Start != nil && r.IntN(100) < 50 {
+		for _, dd := range dndDurations {
+			if dd.s == *p.Dnd && dd.d > 0 {
+				e := (*p.Start + dd.d) * sec
+				if e >= 0 {
+					in.Now = e + pick(r, []int64{-1, 0, 1})
+					if in.Now < 0 {
+						in.Now = 0
+					}
+				}
+			}
+		}
+	}
+	if r.IntN(100) < 85 {
+		in.D = p64(d0)
+	}
+	return in
+}
+
+// enumPreds: every toleration shape x every owner shape; every do-not-disrupt value x start-time edge;
+// every phase x deletionTimestamp edge.
+func enumPreds(core.Tier) []any {
+	var out []any
+	now := int64(10000) * sec
+	d := now + 100*sec
+	basePod := func() PodIn {
+		return PodIn{Phase: "Running", Grace: p64(30), Owners: [][2]string{}, Tols: []TolIn{}, Start: p64(now/sec - 1000)}
+	}
+	for _, t := range tolChoices {
+		for _, o := range ownerChoices {
+			p := basePod()
+			if t.v != nil {
+				p.Tols = t.v
+			}
+			if o.v != nil {
+				p.Owners = o.v
+			}
+			out = append(out, PredIn{Pod: p, Now: now, D: p64(d)})
+		}
+	}
+	var vals []string
+	vals = append(vals, "true")
+	vals = append(vals, dndInvalid...)
+	for _, dd := range dndDurations {
+		vals = append(vals, dd.s)
+	}
+	for _, v := range vals {
+		for _, age := range []*int64{nil, p64(0), p64(1), p64(29), p64(30), p64(31), p64(89), p64(90), p64(91), p64(299), p64(300), p64(301), p64(3599), p64(3600), p64(3601), p64(5399), p64(5400), p64(5401)} {
+			for _, sub := range []int64{0, 1, sec - 1} {
+				p := basePod()
+				p.Dnd = pstr(v)
+				p.Start = nil
+				if age != nil {
+					p.Start = p64(now/sec - *age)
+				}
+				out = append(out, PredIn{Pod: p, Now: now + sub, D: p64(d)})
+			}
+		}
+	}
+	for _, ph := range []string{"Running", "Pending", "Succeeded", "Failed", "", "Unknown"} {
+		for _, del := range []*int64{nil, p64(now/sec - 61), p64(now/sec - 60), p64(now/sec - 59), p64(now / sec), p64(d/sec - 1), p64(d / sec), p64(d/sec + 1)} {
+			for _, sub := range []int64{0, 1} {
+				for _, dl := range []*int64{nil, p64(d)} {
+					p := basePod()
+					p.Phase = ph
+					p.Del = del
+					out = append(out, PredIn{Pod: p, Now: now + sub, D: dl})
+				}
+			}
+		}
+	}
+	return out
+}
+
+// ---------- histories ----------
+
+func implHist(ctl bool) func(raw json.RawMessage) (any, error) {
+	return func(raw json.RawMessage) (any, error) {
+		var in HistIn
+		if err := json.Unmarshal(raw, &in); err != nil {
+			return nil, err
+		}
+		return runHistory(&in, ctl)
+	}
+}
+
+func decodeHist(raw json.RawMessage) HistIn {
+	var in HistIn
+	json.Unmarshal(raw, &in)
+	return in
+}
+
+func callsOf(impl any) (evicts, deletes int) {
+	m, ok := impl.(map[string]any)
+	if !ok {
+		return
+	}
+	steps, _ := m["steps"].([]any)
+	for _, s := range steps {
+		sm, _ := s.(map[string]any)
+		cs, _ := sm["calls"].([]any)
+		for _, c := range cs {
+			cm, _ := c.(map[string]any)
+			switch cm["k"] {
+			case "evict":
+				evicts++
+			case "delete":
+				deletes++
+			}
+		}
+	}
+	return
+}
+
+func histLabels(raw json.RawMessage, impl any) []string {
+	in := decodeHist(raw)
+	l := []string{fmt.Sprintf("pods=%d", len(in.Pods)), fmt.Sprintf("steps<=%d", ((len(in.Steps)/10)+1)*10)}
+	for _, s := range in.Steps {
+		l = append(l, "step:"+s.K)
+		if (s.K == "drain" || s.K == "node" || s.K == "add") && s.D != nil {
+			l = append(l, "deadline")
+		}
+	}
+	e, d := callsOf(impl)
+	if e > 0 {
+		l = append(l, "evicted")
+	}
+	if d > 0 {
+		l = append(l, "force-deleted")
+	}
+	if m, ok := impl.(map[string]any); ok {
+		steps, _ := m["steps"].([]any)
+		for _, s := range steps {
+			sm, _ := s.(map[string]any)
+			if r, _ := sm["r"].(string); r != "" {
+				l = append(l, "r:"+r)
+			}
+		}
+	}
+	return l
+}
+
+func histShrink(raw json.RawMessage) []any {
+	in := decodeHist(raw)
+	var out []any
+	for _, c := range core.ShrinkList(in.Steps) {
+		out = append(out, HistIn{Pods: in.Pods, Now: in.Now, Steps: c})
+	}
+	// drop one pod together with the steps that refer to it (indices above it shift down)
+	if n := len(in.Pods); n > 1 {
+		for j := n - 1; j >= 0; j-- {
+			c := HistIn{Now: in.Now}
+			c.Pods = append(append([]PodIn{}, in.Pods[:j]...), in.Pods[j+1:]...)
+			for _, st := range in.Steps {
+				if (st.K == "rec" || st.K == "mut") && st.P == j {
+					continue
+				}
+				ns := st
+				if (st.K == "rec" || st.K == "mut") && st.P > j {
+					ns.P--
+				}
+				ns.Ps = []int{}
+				for _, i := range st.Ps {
+					switch {
+					case i == j:
+					case i > j:
+						ns.Ps = append(ns.Ps, i-1)
+					default:
+						ns.Ps = append(ns.Ps, i)
+					}
+				}
+				if st.K == "add" && len(ns.Ps) == 0 {
+					continue
+				}
+				c.Steps = append(c.Steps, ns)
+			}
+			if c.Steps == nil {
+				c.Steps = []Step{}
+			}
+			out = append(out, c)
+		}
+	}
+	// simplify one pod field at a time
+	for j, p := range in.Pods {
+		simpler := []func(q *PodIn) bool{
+			func(q *PodIn) bool { c := q.Dnd != nil; q.Dnd = nil; return c },
+			func(q *PodIn) bool { c := len(q.Tols) > 0; q.Tols = []TolIn{}; return c },
+			func(q *PodIn) bool { c := q.Start != nil; q.Start = nil; return c },
+			func(q *PodIn) bool { c := q.Other; q.Other = false; return c },
+		}
+		for _, f := range simpler {
+			q := p
+			if f(&q) {
+				c := HistIn{Now: in.Now, Steps: in.Steps}
+				c.Pods = append([]PodIn{}, in.Pods...)
+				c.Pods[j] = q
+				out = append(out, c)
+			}
+		}
+	}
+	return out
+}
+
+func hasRemoval(_ json.RawMessage, impl any) bool {
+	e, d := callsOf(impl)
+	return e+d > 0
+}
+
+func Ops() []*core.Op {
+	n := func(q, th int) func(core.Tier) int {
+		return func(t core.Tier) int {
+			if t == core.Thorough {
+				return th
+			}
+			return q
+		}
+	}
+	return []*core.Op{
+		{
+			Name:           "c10.preds",
+			Doc:            "pkg/utils/pod predicates (IsActive, IsTerminal, IsStuckTerminating, ToleratesDisruptedNoScheduleTaint, IsOwnedByNode/DaemonSet, IsDoNotDisruptActive, IsDisruptable, IsDrainable, IsWaitingEviction, IsEvictable, IsPodEligibleForForcedEviction) on one pod, clock and node deadline",
+			N:              n(3000, 40000),
+			Gen:            genPreds,
+			Enum:           enumPreds,
+			Impl:           implPreds,
+			ExhaustiveNote: "every toleration shape x every owner shape; every do-not-disrupt value x pod age at/around each duration x sub-second clock; every phase x deletionTimestamp at/around now-60s and the deadline",
+			Rule:           "random pods (priority class, owners, tolerations, grace, do-not-disrupt value, start, phase, deletionTimestamp) with the clock at/around deadline-grace, deletionTimestamp+1min and start+duration; non-trivial = pod terminating or annotated or tolerating or owned",
+			Nontrivial: func(raw json.RawMessage, _ any) bool {
+				var in PredIn
+				json.Unmarshal(raw, &in)
+				p := in.Pod
+				return p.Del != nil || p.Dnd != nil || len(p.Tols) > 0 || len(p.Owners) > 0
+			},
+			Labels: func(raw json.RawMessage, impl any) []string {
+				var l []string
+				if m, ok := impl.(map[string]any); ok {
+					for k, v := range m {
+						if b, _ := v.(bool); b {
+							l = append(l, k)
+						}
+					}
+				}
+				return l
+			},
+			Signature: func(json.RawMessage, any) string { return "preds" },
+		},
+		{
+			Name:           "c10.reconcile",
+			Doc:            "terminator.Queue.Add + one Queue.Reconcile for one pod on the fake client; eviction sub-resource and pod Delete answered by an interceptor (ok/429/multi-PDB/500/404/409)",
+			N:              n(1500, 20000),
+			Gen:            genReconcile,
+			Enum:           enumReconcile,
+			Impl:           implHist(false),
+			ExhaustiveNote: "phase x deletionTimestamp{nil,D-1s,D,D+1s} x grace{nil,0,30} x tolerating x static x do-not-disrupt x queue entry{absent,no deadline,D} x clock{D-grace-1s,-1ns,0,+1ns,+1s} x eviction answer{ok,429}; remaining time to D x delete answers; every eviction answer",
+			Rule:           "non-trivial = the reconcile made an eviction or delete call",
+			Nontrivial:     hasRemoval,
+			Labels:         histLabels,
+			Signature:      func(json.RawMessage, any) string { return "reconcile" },
+		},
+		{
+			Name:           "c10.drain",
+			Doc:            "terminator.Terminator.Drain passes over a pod mix on the fake client; queue items (verif accessor) and drain verdict after each pass",
+			N:              n(1500, 20000),
+			Gen:            genDrain,
+			Enum:           enumDrain,
+			Impl:           implHist(false),
+			ExhaustiveNote: "3 pods x every priority/daemon class x every subset past its force-delete threshold x deadline present/absent; every kind of pod the drain must skip, alone and next to a critical daemon pod",
+			Rule:           "non-trivial = at least one pod was enqueued",
+			Nontrivial: func(_ json.RawMessage, impl any) bool {
+				m, ok := impl.(map[string]any)
+				if !ok {
+					return false
+				}
+				steps, _ := m["steps"].([]any)
+				for _, s := range steps {
+					sm, _ := s.(map[string]any)
+					if it, _ := sm["items"].([]any); len(it) > 0 {
+						return true
+					}
+				}
+				return false
+			},
+			Labels:    histLabels,
+			Signature: func(json.RawMessage, any) string { return "drain" },
+			Shrink:    histShrink,
+		},
+		{
+			Name:       "c10.history",
+			Doc:        "interleavings of Terminator.Drain passes, Queue.Reconcile calls, clock advances and pod changes (annotation cleared, pod finished/gone/replaced/killed) with scripted eviction/delete answers; calls and queue items after every step",
+			N:          n(2000, 20000),
+			Gen:        func(r *rand.Rand, t core.Tier) any { return genHistory(r, t, false) },
+			Impl:       implHist(false),
+			Rule:       "random histories (3..26 steps quick, 3..72 thorough, 1..6 pods); non-trivial = at least one eviction or delete call was made",
+			Nontrivial: hasRemoval,
+			Labels:     histLabels,
+			Signature:  func(json.RawMessage, any) string { return "history" },
+			Shrink:     histShrink,
+		},
+		{
+			Name:       "c10.controller",
+			Doc:        "the same histories with every drain pass driven through termination.Controller.Reconcile (finalize -> nodeTerminationTime from the NodeClaim annotation -> Taint -> awaitDrain -> Drain)",
+			N:          n(300, 2000),
+			Gen:        func(r *rand.Rand, t core.Tier) any { return genHistory(r, t, true) },
+			Impl:       implHist(true),
+			Rule:       "random histories with whole-second deadlines; non-trivial = at least one eviction or delete call was made",
+			Nontrivial: hasRemoval,
+			Labels:     histLabels,
+			Signature:  func(json.RawMessage, any) string { return "controller" },
+			Shrink:     histShrink,
+		},
+	}
+}
